@@ -125,6 +125,10 @@ package openapiv3
 //@   modifies *
 //@   decreases spec.mdepth(message)
 //@   at-call Set requires under_its_schema_name: arg0 == g.getSchemaName(message)
+// ... and what is registered is the schema this generator built from the message in this very call: building is what
+// registers the variant schemas the object schema refers to, so a schema taken from anywhere else leaves dangling $refs
+//@   at-call buildObjectSchema requires from_the_message: arg0 == message
+//@   at-call Set requires built_here: count("buildObjectSchema") == old(count("buildObjectSchema")) + 1 && arg1 == lastRetAs("buildObjectSchema", *base.SchemaProxy)
 //@   ensures registered: count("Set") >= old(count("Set")) + 1
 //@   loop 1 invariant count("Set") >= old(count("Set")) + 1
 
